@@ -753,6 +753,64 @@ def h10(rec, world, shard, nshards, bound):
     return {"executions": st["executions"] + st2["executions"]}
 
 
+def h11(rec, world, lib_a="testlib_2.0.0", lib_b="score_1.1.0"):
+    """Two bundled libraries merged in one request (`a,b`), from every partly filled cache directory an interrupted
+    population leaves (each of the three files absent / complete, lock file left or not): the schema is the one a complete
+    cache gives - both libraries in it - and afterwards the directory holds complete files only (sequential)."""
+    import itertools
+    added = []
+    for v in (lib_a, lib_b, "8.2.0"):
+        f = version_file(v)
+        if f not in world.bytes:
+            with open(os.path.join(core.SCHEMA_DATA, f), "rb") as fh:
+                world.bytes[f] = fh.read()
+            with open(os.path.join(world.installed, f), "wb") as fh:
+                fh.write(world.bytes[f])
+            added.append(f)
+    files = [version_file(lib_a), version_file(lib_b), version_file("8.2.0")]
+
+    def signature(request, initial):
+        world.reset(initial)
+        world.parse_memo.clear()          # a merge writes into the first library's schema object: never reuse a parsed one
+        try:
+            sch = world.hio.load_schema_version(request)
+            return ("ok", sch.library, len(sch.tags.all_names), sha(repr(sorted(sch.tags.all_names)).encode()))
+        except BaseException as e:  # noqa
+            return ("raised", type(e).__name__, str(getattr(e, "code", "")), repr(e)[:120])
+    try:
+        for request in (f"{lib_a},{lib_b}", f"{lib_b},{lib_a}", f"xl:{lib_a},{lib_b}"):
+            want = signature(request, {f: world.bytes[f] for f in files})
+            if want[0] != "ok":
+                rec.violation("C19:H11:merged-load-from-a-complete-cache-failed", request=request, got=want)
+                continue
+            for present in itertools.product((False, True), repeat=3):
+                if all(present):
+                    continue
+                for lock_file in (False, True):
+                    initial = {f: world.bytes[f] for f, p in zip(files, present) if p}
+                    if lock_file:
+                        initial["cache_lock.lock"] = b""
+                        initial[files[1] + ".1000.tmp"] = world.bytes[files[1]][:1000]
+                    rec.n("evaluations")
+                    rec.n("transitions")
+                    rec.n("distinct_nontrivial")
+                    got = signature(request, initial)
+                    rec.state(("H11", request, present, lock_file))
+                    rec.outcome("H11:" + got[0])
+                    where = {"harness": "H11", "request": request, "files_present": dict(zip(files, present)),
+                             "leftover_lock_and_tmp": lock_file}
+                    if got != want:
+                        rec.violation("C19:H11:merged-load-from-a-partly-filled-cache-differs", got=got, complete_cache=want, **where)
+                    bad = torn_files(world.cache_listing(), world)
+                    if bad:
+                        rec.violation("C19:H11:torn-file-kept-under-final-name", files=bad, **where)
+    finally:
+        world.parse_memo.clear()
+        for f in added:
+            del world.bytes[f]
+            os.remove(os.path.join(world.installed, f))
+
+
 def h0(rec, world, versions):
     """Every leftover cache directory an earlier process can leave behind, followed by one load of each installed version
     (sequential): each installed file {absent, complete}, a stale temporary copy {absent, half}, lock file {absent, present},
@@ -1169,6 +1227,8 @@ def worker(rec, shard, nshards, scratch, files, bounds, thorough, seed):
         h7(rec, WORLD, versions[0])
     if shard == 3 % nshards:
         h9(rec, WORLD, versions[0])
+    if shard == 4 % nshards:
+        h11(rec, WORLD)
     shutil.rmtree(WORLD.root, ignore_errors=True)
 
 
